@@ -14,6 +14,7 @@ func init() {
 			ruleMemAll(c)
 			ruleEmitLemmas(c)
 			ruleExactConsumption(c)
+			ruleConsumed(c, decodeBound(c.P), nil)
 		},
 	})
 }
